@@ -540,13 +540,13 @@ Section Complete.
   Qed.
 End Complete.
 
-(* the NoDup hypothesis is part of the domain (wfb) but is not needed: aget and has_edge only see
-   the first entry of a key, and shadowed entries only make the fuel bound more generous *)
+(* no NoDup hypothesis on the node list is needed: aget and has_edge only see the first entry of a key,
+   and shadowed entries only make the fuel bound more generous *)
 Theorem find_cycle_found : forall ord, (forall n l, Permutation (ord n l) l) ->
-  forall s seed, NoDup (map fst (outs s)) -> is_node s nobody = false ->
+  forall s seed, is_node s nobody = false ->
   spath s seed seed -> find_cycle ord s seed <> [].
 Proof.
-  intros ord Hord s seed _ Hn Hp. apply find_cycle_found_sec; assumption.
+  intros ord Hord s seed Hn Hp. apply find_cycle_found_sec; assumption.
 Qed.
 
 (* a non-empty answer witnesses a cycle through the seed *)
@@ -561,29 +561,29 @@ Proof.
 Qed.
 
 Theorem find_cycle_nonempty_iff : forall ord, (forall n l, Permutation (ord n l) l) ->
-  forall s seed, NoDup (map fst (outs s)) -> is_node s nobody = false ->
+  forall s seed, is_node s nobody = false ->
   (find_cycle ord s seed <> [] <-> spath s seed seed).
 Proof.
-  intros ord Hord s seed Hnd Hn. split.
+  intros ord Hord s seed Hn. split.
   - apply find_cycle_nonempty_spath; assumption.
   - apply find_cycle_found; assumption.
 Qed.
 
 Theorem find_cycle_empty_indep : forall ord1 ord2,
   (forall n l, Permutation (ord1 n l) l) -> (forall n l, Permutation (ord2 n l) l) ->
-  forall s seed, NoDup (map fst (outs s)) -> is_node s nobody = false ->
+  forall s seed, is_node s nobody = false ->
   (find_cycle ord1 s seed = [] <-> find_cycle ord2 s seed = []).
 Proof.
   assert (Hhalf : forall ord1 ord2,
     (forall n l, Permutation (ord1 n l) l) -> (forall n l, Permutation (ord2 n l) l) ->
-    forall s seed, NoDup (map fst (outs s)) -> is_node s nobody = false ->
+    forall s seed, is_node s nobody = false ->
     find_cycle ord1 s seed = [] -> find_cycle ord2 s seed = []).
-  { intros ord1 ord2 H1 H2 s seed Hnd Hn He1.
+  { intros ord1 ord2 H1 H2 s seed Hn He1.
     destruct (find_cycle ord2 s seed) as [|y r] eqn:He2; [reflexivity|]. exfalso.
     assert (Hne2 : find_cycle ord2 s seed <> []) by (rewrite He2; discriminate).
-    apply (find_cycle_found ord1 H1 s seed Hnd Hn); [|exact He1].
+    apply (find_cycle_found ord1 H1 s seed Hn); [|exact He1].
     apply (find_cycle_nonempty_spath ord2 H2 s seed Hn Hne2). }
-  intros ord1 ord2 H1 H2 s seed Hnd Hn. split; apply Hhalf; assumption.
+  intros ord1 ord2 H1 H2 s seed Hn. split; apply Hhalf; assumption.
 Qed.
 
 (* the hypotheses are satisfiable on a concrete graph  1 -> 2 -> 3 -> 1, 3 -> 4 *)
